@@ -231,6 +231,10 @@ func (r *RNG) runLen(o ProgOpts) int {
 	max := o.MaxRun
 	if max <= 0 {
 		max = 70
+		if r.Chance(1) {
+			// a run longer than any 8-bit counter
+			return []int{255, 256, 257, 300, 511, 512, 513, 600}[r.Intn(8)]
+		}
 	}
 	switch r.Intn(10) {
 	case 0:
